@@ -50,10 +50,13 @@ ScanCallOk(rc) ==
        /\ rc.req.all = (IF rc.scanmsg = 1 THEN <<3, 4>> ELSE <<3>>) /\ rc.req.left = Tail(rc.req.all)
        /\ rc.req.master = Tel(3, 0, slaves[1]) /\ rc.req.idx = 0 /\ rc.req.nidx = 0
 
+SwRetOk(rc) == LET o == SFormatScanResult(rc.entry = 1, rc.lens) IN rc.have = o.have /\ Len(rc.text) = o.len
+
 Ok(rc) == CASE rc.e = "ntf" /\ rc.pre.k = "poll" -> PollOk(rc)
             [] rc.e = "ntf" /\ rc.pre.k = "scan" -> ScanOk(rc)
             [] rc.e = "pse" -> PseOk(rc)
             [] rc.e = "scancall" -> ScanCallOk(rc)
+            [] rc.e = "swret" -> SwRetOk(rc)
             [] OTHER -> TRUE
 SigOf(rc) == IF rc.e = "ntf" THEN rc.pre.k ELSE rc.e
 
